@@ -69,6 +69,8 @@ def h_netloc(ctx, n, skeleton=None):
     r = call(P.parse.split_netloc, a)
     ctx.observe("split_netloc", r[:2])
     user, password, host, port_text = O.split_authority(a)
+    if r[0] == "excluded":
+        return
     if r[0] == "exc":
         # documented: non-numeric or out-of-range port
         ctx.check("ValueError-only-for-port", r[1] == "ValueError" and bool(port_text), r[1])
@@ -112,7 +114,9 @@ def h_encoded(ctx, n, skeleton=None):
     user, password, host, port_text = O.split_authority(auth)
     ru = call(lambda: (u.raw_user, u.raw_password, u.raw_host, u.explicit_port))
     ctx.observe("netloc-accessors", ru[:2])
-    if ru[0] == "ok":
+    if ru[0] == "excluded":
+        pass
+    elif ru[0] == "ok":
         ctx.check("raw_user", sym_eq(ru[1][0], user))
         ctx.check("raw_password", sym_eq(ru[1][1], password))
         # an authority with an empty host has the host ''; None is for URLs without an authority
